@@ -142,6 +142,13 @@ func (c *vCase) Describe(format string, args ...any) {
 	c.descr = append(c.descr, fmt.Sprintf(format, args...))
 }
 
+// Note records, in the journal, a fact about the running case that survives a crash of the process (e.g. the
+// fault that has just been injected); the driver appends the notes of a crashed case to its crash signature.
+func (c *vCase) Note(note string) {
+	vWriteLine(vJournal, map[string]any{"ev": "note", "idx": c.Idx, "note": note})
+	vJournal.Sync()
+}
+
 func (c *vCase) Nontrivial() { c.mu.Lock(); c.res.Nontrivial = true; c.mu.Unlock() }
 
 func (c *vCase) SetSample(s any) { c.mu.Lock(); c.res.Sample = s; c.mu.Unlock() }
